@@ -206,6 +206,10 @@ def finish(prop: str, mod, tier: str, seed: int, cases: list, records: list, t0:
         "harness_errors": len(errs),
         "class_histogram_top": [[json.loads(k), v] for k, v in classes.most_common(12)],
     }
+    ts = sorted(float(r.get("t", 0.0)) for r in records)
+    if ts:
+        cov["case_seconds"] = {"sum": round(sum(ts), 1), "median": round(ts[len(ts) // 2], 2),
+                               "p95": round(ts[int(len(ts) * 0.95)], 2), "max": round(ts[-1], 2)}
     agg = getattr(mod, "aggregate", None)
     if agg:
         try:
